@@ -49,9 +49,11 @@ pub fn test_case(case: &SerCase) -> TestResult {
     let spec = &case.spec;
     let mut contributions = 0;
     let mut tag_contrib = false;
+    let mut max_bytes = 0usize;
     for tags in [false, true] {
         let mut p = util::predictor(spec, tags)?;
         let bytes = p.serialize_to_vec().map_err(|e| format!("serialize_to_vec: {e}"))?;
+        max_bytes = max_bytes.max(bytes.len());
         let mut joined = bytes.clone();
         joined.extend_from_slice(&case.trailing);
         let (mut p2, rest) = unsafe { Predictor::deserialize_from_slice_unchecked(&joined) }
@@ -102,6 +104,10 @@ pub fn test_case(case: &SerCase) -> TestResult {
         .class(!spec.type_ngrams.is_empty() && spec.type_window <= 3, "type-cache-scorer")
         .class(!spec.type_ngrams.is_empty() && spec.type_window > 3, "type-automaton-scorer")
         .class(!case.trailing.is_empty(), "trailing-bytes")
+        .class(max_bytes > 1 << 16, "serialised>64KiB")
+        .class(max_bytes > 1 << 24, "serialised>16MiB")
+        .class(max_bytes > 1 << 25, "serialised>32MiB")
+        .class(max_bytes > 1 << 28, "serialised>256MiB")
         .class(
             spec.char_ngrams.is_empty() && spec.dict.is_empty() || spec.type_ngrams.is_empty(),
             "a-scorer-absent(None on the wire)",
@@ -115,6 +121,10 @@ pub struct LargeCase {
     pub n_tag_models: usize,
     pub n_char_ngrams: usize,
     pub n_words: usize,
+    /// additional 6-character dictionary words (size driver: about 107 bytes of serialised
+    /// predictor per word)
+    #[serde(default)]
+    pub n_long_words: usize,
 }
 
 pub fn large_model(c: &LargeCase) -> SerCase {
@@ -138,6 +148,23 @@ pub fn large_model(c: &LargeCase) -> SerCase {
     for k in 0..c.n_words {
         let w: String = [ch(k), ch(k + 1), ch(k + 2)].iter().collect();
         spec.dict.push(WordSpec { word: w, weights: vec![7, -(k as i32 % 9), 3, 11], comment: String::new() });
+    }
+    let long_word = |k: usize| -> String {
+        let mut k = k;
+        (0..6)
+            .map(|_| {
+                let c = ch(1000 + k % 300);
+                k /= 300;
+                c
+            })
+            .collect()
+    };
+    for k in 0..c.n_long_words {
+        spec.dict.push(WordSpec {
+            word: long_word(k),
+            weights: vec![(k % 13) as i32 - 6, 5, -(k as i32 % 3), 2, 1, -4, 9],
+            comment: String::new(),
+        });
     }
     for i in 0..c.n_tag_models {
         let tok: String = ch(i).to_string();
@@ -166,6 +193,11 @@ pub fn large_model(c: &LargeCase) -> SerCase {
         texts.push(t);
         i += 125;
     }
+    if c.n_long_words > 0 {
+        let n = c.n_long_words;
+        texts.push([0, 1, n - 1, n / 2, n / 3 + 7].iter().map(|&k| long_word(k)).collect());
+        texts.push(format!("{}{}", ch(3), long_word(n - 2)));
+    }
     SerCase { spec, texts, trailing: vec![9, 8, 7] }
 }
 
@@ -189,17 +221,20 @@ pub fn run(rep: &mut Report) {
         "large-models",
         "deterministic large models crossing size thresholds no small random model reaches: \
 5,000 tag models (hash maps with > 4,096 entries), 70,000 character n-grams (> 65,535 patterns), \
-hundreds of dictionary words; same round-trip + reference oracle on texts that walk over every \
+hundreds of dictionary words, and a dictionary of 400,000 (thorough: 3,000,000) words whose \
+serialised predictor exceeds 2^25 (2^28) bytes; same round-trip + reference oracle on texts that walk over every \
 tag-model token",
         false,
         vec![
-            LargeCase { n_tag_models: 5000, n_char_ngrams: 300, n_words: 40 },
-            LargeCase { n_tag_models: 200, n_char_ngrams: 70000, n_words: 250 },
+            LargeCase { n_tag_models: 5000, n_char_ngrams: 300, n_words: 40, n_long_words: 0 },
+            LargeCase { n_tag_models: 200, n_char_ngrams: 70000, n_words: 250, n_long_words: 0 },
+            // serialised size above 2^24, 2^25 bytes (thorough: above 2^28)
+            LargeCase { n_tag_models: 20, n_char_ngrams: 300, n_words: 10, n_long_words: rep.n(400_000, 3_000_000) as usize },
         ]
         .into_iter(),
         |c: &LargeCase| test_case(&large_model(c)).map(|mut i| { i.nontrivial = true; i }),
     );
-    let n = rep.n(12000, 120000);
+    let n = rep.n(12000, 600000);
     rep.run_prop(
         "serialize-deserialize",
         "generated models (with/without tag models; type windows on both sides of the cache limit; \
